@@ -19,6 +19,7 @@ from ..core import (
     ContainerValueMixin,
     Field,
     Schema,
+    ValidationError,
     isconfigtype,
 )
 
@@ -130,10 +131,19 @@ class ListProxy(list, ContainerValueMixin):
                 )
                 if value._schema is not expected:
                     raise ValueError("configuration does not match the item schema")
+                links = (value._parent, value._key, value._container)
                 value._parent = self.cfg
                 value._key = self.list_field._key
                 value._container = self
-                value.validate()
+                try:
+                    value.validate()
+                except Exception as err:
+                    if isinstance(err, ValidationError):
+                        # named by the place the item was meant for
+                        err._ref_path = err.ref_path
+                    # a refused item stays where it was
+                    value._parent, value._key, value._container = links
+                    raise
                 cfg = value
             else:
                 raise ValueError("invalid configuration object")
